@@ -390,7 +390,7 @@ theorem parse_qual_text (k v : Str) (hk : KeyOK k) (h1 : v.head? ≠ some '"') (
     let qf := spaces 21 ++ (W k ++ v ++ c!"\"")
     let sp := splitN2 '=' (trimSpace qf)
     sp = ['/' :: k, '"' :: (v ++ c!"\"")] ∧ trimPrefix (trimSpace ('/' :: k)) c!"/" = k
-      ∧ trim (trimSpace ('"' :: (v ++ c!"\""))) c!"\"" = v := by
+      ∧ unquoteValue (trimSpace ('"' :: (v ++ c!"\""))) = v := by
   have hl : NSLast (W k ++ v ++ c!"\"") := by
     intro c hc; rw [getLast?_append_ne _ _ (by simp)] at hc; simp at hc; subst hc; decide
   have ht : trimSpace (spaces 21 ++ (W k ++ v ++ c!"\"")) = W k ++ v ++ c!"\"" :=
@@ -422,7 +422,13 @@ theorem parse_qual_text (k v : Str) (hk : KeyOK k) (h1 : v.head? ≠ some '"') (
       · intro c hc; simp at hc; subst hc; decide
       · intro c hc
         rw [← List.cons_append, getLast?_append_ne _ _ (by simp)] at hc; simp at hc; subst hc; decide
-    rw [this]; exact trim_quotes v h1 h2
+    rw [this]
+    unfold unquoteValue
+    have hpre : hasPrefix ('"' :: (v ++ c!"\"")) c!"\"" = true := by simp [hasPrefix, List.isPrefixOf]
+    have hsuf : hasSuffix ('"' :: (v ++ c!"\"")) c!"\"" = true := by
+      simp [hasSuffix, List.reverse_cons, List.reverse_append, List.isPrefixOf]
+    rw [if_pos ⟨by simp, hpre, hsuf⟩]
+    simp [List.dropLast_concat]
 
 /-! ### the first line of a qualifier -/
 
@@ -663,8 +669,18 @@ theorem qualLines_ok (k v : Str) (bs : List Nat) (st : Nat) (h : wfQual (k, v) =
               | cons y ys => exact ⟨y, ys, rfl, by rw [← List.mem_reverse, h]; simp⟩
             obtain ⟨y, ys, hrev, hy⟩ := hl
             rw [hrev, List.dropWhile_cons_of_neg (by rw [hnot y hy]; simp), ← hrev, List.reverse_reverse]
+        have hv3 : unquoteValue v = v := by
+          unfold unquoteValue
+          rw [if_neg]
+          · exact hv2
+          · rintro ⟨_, hpre, _⟩
+            cases v with
+            | nil => exact hvne rfl
+            | cons x xs =>
+              simp only [hasPrefix, List.isPrefixOf, Bool.and_eq_true, beq_iff_eq] at hpre
+              exact hq (by rw [← hpre.1]; simp)
         simp only [attributeValueOf]
-        rw [hv1, hv2]; simp [trimPrefix]
+        rw [hv1, hv3]; simp [trimPrefix]
     · -- `/key="value"`, wrapped
       obtain ⟨c0, cs, hvc, hV, hj, hl⟩ := valueChunks_ok k v bs hp
       obtain ⟨d0, ds, hcl, hqs, hfold⟩ := qstate_chunks (('/' :: k) == c!"/translation") k cs c0 [] ' ' hV hl
